@@ -337,26 +337,36 @@ def c_swizzle_constraints(c, w, signed):
     bt = GhostBoolector()
     f.build(bt)
     b = VariableBoundScalarModel(f)
-    rs_ = GhostRandState(c)
-    sw = SW.SolveGroupSwizzlerPartsel(rs_, None)
-    try:
-        es = sw.create_rand_domain_constraint(f, b)
-        nodes = [e.build(bt) for e in es]
-    except GhostBtorError as ex:
-        c.check("every emitted part-select lies inside the field (no Boolector precondition is violated)", False, info=repr(ex))
-        return
-    lo, hi = b.domain.range_l[0]
-    d = max(abs(lo), abs(hi)).bit_length()
-    p = rs_.rng.draws[-1][2]
-    c.check("one pattern draw from the RandState, inside the field's domain",
-            And(len(rs_.rng.draws) == 1, p >= lo, p <= hi))
-    conj = z3.BitVecVal(1, 1)
-    for n in nodes:
-        conj = conj & n.term
-    want = z3.Extract(d - 1, 0, f.var.term) == (z3.Extract(d - 1, 0, p.z) if z3.is_bv(p.z) else z3.Int2BV(p.z, d))
-    c.check("conjunction of the swizzle constraints <=> field[d-1:0] == pattern mod 2**d (slices tile [0,d))",
-            (conj == 1) == want)
-    c.check("all swizzle constraints are 1-bit nodes", all(n.width == 1 for n in nodes))
+    full = tuple(b.domain.range_l[0])
+    doms = [full]
+    if w >= 3:
+        doms.append((0, (1 << (w // 2)) - 1))                       # a narrow non-negative domain
+        doms.append((1, 2))
+    if signed and w >= 4:
+        doms.append((-(1 << (w // 2)), (1 << (w // 2)) - 1))         # a narrow domain around zero
+        doms.append((-3, 5))
+        doms.append((-(1 << (w - 1)), -2))                            # negative values only
+    for (lo, hi) in doms:
+        b.domain.range_l[0][0], b.domain.range_l[0][1] = lo, hi
+        rs_ = GhostRandState(c)
+        sw = SW.SolveGroupSwizzlerPartsel(rs_, None)
+        try:
+            es = sw.create_rand_domain_constraint(f, b)
+            nodes = [e.build(bt) for e in es]
+        except GhostBtorError as ex:
+            c.check("every emitted part-select lies inside the field (no Boolector precondition is violated)", False, info=repr(ex))
+            return
+        p = rs_.rng.draws[-1][2]
+        c.check("one pattern draw from the RandState, inside the field's domain",
+                And(len(rs_.rng.draws) == 1, p >= lo, p <= hi), info="domain [%d..%d]" % (lo, hi))
+        conj = z3.BitVecVal(1, 1)
+        for n in nodes:
+            conj = conj & n.term
+        tgt = z3.Extract(w - 1, 0, p.z) if z3.is_bv(p.z) else z3.Int2BV(p.z, w)
+        c.check("C14: for every target value of the domain the steering constraints hold together exactly when the field equals "
+                "the target (no two domain values compete for one target: each can be produced)",
+                (conj == 1) == (f.var.term == tgt), info="domain [%d..%d] width %d signed %s" % (lo, hi, w, signed))
+        c.check("all swizzle constraints are 1-bit nodes", all(n.width == 1 for n in nodes))
 
 
 @contract("swizzler.swizzle_field.dist", ["C15", "C09"],
